@@ -57,6 +57,8 @@ class Tr:
         self.known = known          # name -> list of parameter names (functions translated so far)
         self.mask = None            # name of the isfinite-mask inside a masked function
         self.uses_fmod = False
+        self.objects = set()        # parameters that are objects whose fields are read (air.vonkarman_constant)
+        self.extra = []             # the fields read, in order of first use: extra real parameters
 
     def expr(self, e):
         if isinstance(e, ast.Constant):
@@ -65,6 +67,11 @@ class Tr:
             return ident(e.id)
         if isinstance(e, ast.Attribute) and isinstance(e.value, ast.Name) and e.value.id == "np" and e.attr == "pi":
             return "PI"
+        if isinstance(e, ast.Attribute) and isinstance(e.value, ast.Name) and e.value.id in self.objects:
+            nm = "%s_%s" % (e.value.id, e.attr)          # air.vonkarman_constant: a field of an argument object
+            if nm not in self.extra:
+                self.extra.append(nm)
+            return ident(nm)
         if isinstance(e, ast.Subscript) and self.mask is not None and isinstance(e.value, ast.Name) \
                 and isinstance(e.slice, ast.Name) and e.slice.id == self.mask:
             return ident(e.value.id)          # x[mask]: the finite elements of x, element by element
@@ -93,6 +100,10 @@ class Tr:
                 raise Refuse("np.%s" % f.attr)
             if isinstance(f, ast.Name) and f.id == "atleast_1d" and len(e.args) == 1 and not e.keywords:
                 return self.expr(e.args[0])
+            if isinstance(f, ast.Attribute) and f.attr == "where" and isinstance(f.value, ast.Name) and f.value.id != "np" \
+                    and len(e.args) == 2 and not e.keywords:
+                # x.where(cond, other): x where cond holds, other elsewhere (xarray)
+                return "(if %s then %s else %s)" % (self.cmp(e.args[0]), ident(f.value.id), self.expr(e.args[1]))
             if isinstance(f, ast.Name) and f.id in self.known:
                 params = self.known[f.id]
                 vals = {}
@@ -322,6 +333,78 @@ def translate_masked(fn, tr, out):
     tr.known[fn.name] = params
 
 
+def translate_kwargs(fn, tr, out):
+    """straight-line functions whose tuning constants arrive through **kwargs / object arguments:
+         [docstring]
+         (if not isinstance(x, xarray.DataArray): x = xarray.DataArray(data=x))?      -> skipped (same elements)
+         (name = kwargs.get("key", default))*                                        -> a real parameter `name`
+         (name = expr)*  return expr                 with obj.field for an object parameter -> a real parameter obj_field
+       The emitted definition takes: the positional parameters that are not objects, then the kwargs names in
+       source order, then the object fields in order of first use.  Defaults are recorded as comments only."""
+    a = fn.args
+    if a.vararg or a.kwonlyargs or a.posonlyargs or fn.decorator_list:
+        raise Refuse("%s: unsupported parameter kinds / decorators" % fn.name)
+    params = [x.arg for x in a.args]
+    objects = set()
+    for x, d in zip(a.args[len(a.args) - len(a.defaults):], a.defaults):
+        if isinstance(d, ast.Name) and d.id.isupper():
+            objects.add(x.arg)                  # e.g. air: FluidProperties = AIR
+    tr.objects = objects
+    tr.extra = []
+    name = ident(fn.name)
+    body = [s for s in fn.body if not is_doc(s)]
+    kw = []
+    notes = []
+    pairs = []
+    i = 0
+    while i < len(body) - 1:
+        st = body[i]
+        if isinstance(st, ast.If) and not st.orelse and isinstance(st.test, ast.UnaryOp) and isinstance(st.test.op, ast.Not) \
+                and isinstance(st.test.operand, ast.Call) and isinstance(st.test.operand.func, ast.Name) \
+                and st.test.operand.func.id == "isinstance" and len(st.body) == 1:
+            tgt, val = assign(st.body[0])
+            if not (isinstance(val, ast.Call) and isinstance(val.func, ast.Attribute) and val.func.attr == "DataArray"
+                    and len(val.keywords) == 1 and val.keywords[0].arg == "data" and isinstance(val.keywords[0].value, ast.Name)
+                    and val.keywords[0].value.id == tgt and not val.args):
+                raise Refuse("%s: unsupported isinstance branch" % fn.name)
+            i += 1
+            continue
+        n, v = assign(st)
+        if isinstance(v, ast.Call) and isinstance(v.func, ast.Attribute) and v.func.attr == "get" \
+                and isinstance(v.func.value, ast.Name) and a.kwarg is not None and v.func.value.id == a.kwarg.arg:
+            if len(v.args) != 2 or not isinstance(v.args[0], ast.Constant) or not isinstance(v.args[0].value, str) or v.keywords:
+                raise Refuse("%s: kwargs.get without a literal key and a default" % fn.name)
+            if v.args[0].value != n:
+                raise Refuse("%s: kwargs key %r is bound to another name %r" % (fn.name, v.args[0].value, n))
+            if pairs:
+                raise Refuse("%s: kwargs.get after the computation started" % fn.name)
+            d = v.args[1]
+            used_as_object = any(isinstance(x, ast.Attribute) and isinstance(x.value, ast.Name) and x.value.id == n
+                                 for x in ast.walk(fn))
+            if isinstance(d, ast.Name) and d.id.isupper() and used_as_object:
+                tr.objects.add(n)               # air = kwargs.get("air", AIR): an object whose fields are read
+                i += 1
+                continue
+            kw.append(n)
+            if isinstance(d, ast.Constant):
+                notes.append("Definition %s_default_%s : R := %s." % (name, n, const(d.value)))
+            else:
+                notes.append("(* default of %s.%s: %s *)" % (fn.name, n, ast.unparse(d)))
+        else:
+            pairs.append((n, tr.expr(v)))
+        i += 1
+    if not isinstance(body[-1], ast.Return) or body[-1].value is None:
+        raise Refuse("%s: does not end in return <expr>" % fn.name)
+    ret = tr.expr(body[-1].value)
+    real = [p for p in params if p not in objects] + kw + tr.extra
+    out.extend(notes)
+    out.append("(* parameters: %s *)\nDefinition %s %s : R :=\n%s." % (
+        ", ".join(real), name, " ".join("(%s : R)" % ident(p) for p in real), lets(pairs, ret)))
+    tr.known[fn.name] = real
+    tr.objects = set()
+    tr.extra = []
+
+
 def translate(path, funcs, header):
     tree = ast.parse(open(path).read())
     found = {}
@@ -341,11 +424,11 @@ def translate(path, funcs, header):
     # translate in source order so that callees precede callers where the source allows; otherwise by `funcs`
     order = sorted(funcs, key=lambda n: 0)  # keep the order given: callees first
     for name in order:
-        masked = name.startswith("masked:")
+        mode = name.split(":")[0] if ":" in name else ""
         name = name.split(":")[-1]
         if name not in found:
             raise Refuse("function %s not found" % name)
-        (translate_masked if masked else translate_function)(found[name], tr, out)
+        {"masked": translate_masked, "kwargs": translate_kwargs, "": translate_function}[mode](found[name], tr, out)
     text = ("(* GENERATED by harness/translate_pointwise.py from %s - do not edit *)\n"
             "From Coq Require Import Reals.\n%sOpen Scope R_scope.\n\n" % (header, "From OSU.Lib Require Import Fmod.\n" if tr.uses_fmod else "")
             + "\n\n".join(out) + "\n\n"
